@@ -66,6 +66,8 @@ pub enum Act {
     Reset { r: usize, disc: Delivery },
     /// start a serde-restored shadow of replica r
     Shadow { r: usize },
+    /// first action of a history: all replicas (and every later observer) start from `S::aged(base)`
+    Age { base: Vec<(u8, u64)> },
     Law { kind: u8, i: usize, j: usize, k: usize },
 }
 
@@ -176,6 +178,9 @@ pub struct World<S: Sut> {
     pub last_count: Vec<Option<u128>>,
     pub pending_prev: Vec<usize>,
     pub quiet: bool,
+    /// initial state of every replica and its clock (Act::Age)
+    pub init: S,
+    pub base: Clk,
 }
 
 /// `a != b` through the crate's own `==`, which may panic (MVReg::eq has a sanity assertion): a panic counts as
@@ -239,6 +244,8 @@ impl<S: Sut> World<S> {
             last_count: vec![None; n],
             pending_prev: vec![0; n],
             quiet: false,
+            init: S::new(),
+            base: Clk::new(),
         }
     }
     pub fn find(&self, author: usize, seq: usize) -> Option<usize> {
@@ -264,7 +271,7 @@ impl<S: Sut> World<S> {
         let facts = self.facts_of(k);
         let rfc = &self.rfc;
         let past = |i: usize, j: usize| -> bool { rfc[j] >> i & 1 == 1 };
-        S::spec(&SpecIn { facts: &facts, all: &self.facts, past: &past })
+        S::spec(&SpecIn { facts: &facts, all: &self.facts, past: &past, base: &self.base })
     }
     /// record that a merge of states with knowledge sets kx and ky is being evaluated
     fn note_merge(&mut self, kx: Bits, ky: Bits) {
@@ -322,7 +329,8 @@ impl<S: Sut> World<S> {
                     for c in &g.rm_ctxs {
                         self.st.ev("ctx_rm_known");
                         for (a, n) in c {
-                            let known = (0..id).any(|j| self.know[r] >> j & 1 == 1 && self.want_dot[j] == Some((*a, *n)));
+                            // (or, after an aged start, the actor's last dot of the shared past)
+                            let known = (0..id).any(|j| self.know[r] >> j & 1 == 1 && self.want_dot[j] == Some((*a, *n))) || self.base.get(a) == Some(n);
                             if !known {
                                 return Err(self.v("ctx", self.know[r], format!("remove context {c:?} read at r{r} names dot ({a},{n}) which is not an update r{r} has applied")));
                             }
@@ -462,7 +470,7 @@ impl<S: Sut> World<S> {
                 if *r < self.cfg.nrep || *r >= self.reps.len() {
                     return Ok(false);
                 }
-                self.reps[*r] = S::new();
+                self.reps[*r] = self.init.clone();
                 self.know[*r] = 0;
                 self.disc[*r] = *disc;
                 self.order_hash[*r] = 0;
@@ -471,6 +479,25 @@ impl<S: Sut> World<S> {
                 self.last_count[*r] = None;
                 self.shadows.retain(|(q, _)| q != r);
                 self.lg(format!("{step}: observer r{r} reset, discipline {disc:?}"));
+                return Ok(true);
+            }
+            Act::Age { base } => {
+                // only as the very first action, and only for types that model aging
+                if !self.ops.is_empty() || !self.base.is_empty() || self.know.iter().any(|k| *k != 0) || base.is_empty() {
+                    return Ok(false);
+                }
+                let Some(s) = S::aged(base) else { return Ok(false) };
+                for (a, b) in base {
+                    self.base.insert(*a, *b);
+                    self.sh.ndots[*a as usize] = *b;
+                }
+                self.init = s;
+                for r in 0..self.reps.len() {
+                    self.reps[r] = self.init.clone();
+                    self.past[r] = vec![self.init.clone()];
+                }
+                self.st.ev("aged_start");
+                self.lg(format!("{step}: every replica starts from the aged state with clock {:?}", self.base));
                 return Ok(true);
             }
             Act::Shadow { r } => {
@@ -842,7 +869,7 @@ impl<S: Sut> World<S> {
             "VC" | "OS" | "LI" | "MO" | "MM" | "MMO" | "MMM" | "MMMO" => {
                 let Some(d) = self.want_dot[j] else { return Ok(()) };
                 // highest dot of that actor the replica has applied
-                let have = (0..self.ops.len()).filter(|&i| k >> i & 1 == 1).filter_map(|i| self.want_dot[i]).filter(|x| x.0 == d.0).map(|x| x.1).max().unwrap_or(0);
+                let have = (0..self.ops.len()).filter(|&i| k >> i & 1 == 1).filter_map(|i| self.want_dot[i]).filter(|x| x.0 == d.0).map(|x| x.1).max().unwrap_or(0).max(cget(&self.base, d.0));
                 if d.1 <= have + 1 {
                     Ok(())
                 } else {
@@ -1358,7 +1385,7 @@ impl<S: Sut> World<S> {
                 if self.closed(ku) {
                     // the real op path: a fresh replica fed Ka|Kb in issue order (a causal order)
                     self.st.ev("law_hybrid_oppath");
-                    let mut f = S::new();
+                    let mut f = self.init.clone();
                     for id in 0..self.ops.len() {
                         if ku >> id & 1 == 1 {
                             f.apply_op(self.ops[id].clone());
